@@ -77,8 +77,11 @@ func c07Verify(c *Ctx, prog *load.Program) {
 		args[0].Val = absint.Nil{}
 		r := RunFn(prog, protoSet(nil), name, &RunOpts{Args: args})
 		wrong, _ := ecdsaVerifySpec(symPt("**q.point"), nil, "h", symFn("*s"), symFn("*r"))
-		acc, _, _ := errSplit(r, 0)
-		ok, _ := Equivalent(FExits(acc, func(absint.Exit) bool { return true }), wrong)
+		codeF, _ := acceptFormula(r, 0)
+		ok := codeF == nil
+		if codeF != nil {
+			ok, _ = Equivalent(codeF, wrong)
+		}
 		c.R.ControlResult("C07-1", "swapped-r-s", "a predicate with r and s exchanged must not be equivalent to the code", !ok)
 	}
 	c.R.Floor("C07-1", 3)
